@@ -1253,7 +1253,17 @@ impl SessionContext {
                     builder.with_max_temp_directory_size(DEFAULT_MAX_TEMP_DIRECTORY_SIZE);
             }
             "temp_directory" => {
-                builder.disk_manager_builder = Some(DiskManagerBuilder::default());
+                // Only the location is reset, the limits are kept
+                let disk_manager = &state.runtime_env().disk_manager;
+                builder.disk_manager_builder = Some(
+                    DiskManagerBuilder::default()
+                        .with_max_temp_directory_size(
+                            disk_manager.max_temp_directory_size(),
+                        )
+                        .with_max_spill_merge_fan_in(
+                            disk_manager.max_spill_merge_fan_in(),
+                        ),
+                );
             }
             "metadata_cache_limit" => {
                 builder = builder.with_metadata_cache_limit(DEFAULT_METADATA_CACHE_LIMIT);
